@@ -118,8 +118,11 @@ def cases(tier, seed):
         for req in mos_requests(tier):
             yield ("mos-triple", name, tuple(sorted((k, v.name) for k, v in req.items())))
         if d["models"]:       # only PDKs whose documentation offers selection by model name
-            for model in list(d["models"]) + ["NO_SUCH_MODEL"]:
+            names = list(d["models"])
+            partial = sorted({n[:k] for n in names for k in (4, len(n) // 2, len(n) - 1)} - set(names))[:12]
+            for model in names + ["NO_SUCH_MODEL"] + partial:
                 yield ("mos-model", name, model)
+        yield ("params", name, None)
         for kind, table in d["passives"].items():
             for model in list(table) + ["NO_SUCH_MODEL"]:
                 for sized in (False, True):
@@ -237,6 +240,41 @@ def check_case(case):
                 return (f"{pname}.sizes.given", f"{case!r}: given w/l not passed through: w={getp('w')}, l={getp('l')}", w)
             if not given and pname != "asap7" and (getp("w") is None or getp("l") is None):
                 return (f"{pname}.sizes.default", f"{case!r}: defaulted size missing", w)
+        return None
+    if kind == "params":
+        # instances that differ only in multiplier / fingers keep their own values; equal ones share one call
+        req = dict(tp=MosType.NMOS, family=MosFamily.CORE, vth=MosVth.STD)
+        if not P["mos"](h.Mos(**req).params):
+            return None
+        top = h.Module(name="PTop")
+        top.a, top.b, top.c, top.d = h.Signals(4)
+        variants = [dict(mult=1), dict(mult=2), dict(mult=4, nf=2), dict(mult=2), dict(w=3 * h.prefix.µ, l=1 * h.prefix.µ, mult=2),
+                    dict(w=3 * h.prefix.µ, l=1 * h.prefix.µ, mult=3)]
+        for k, v in enumerate(variants):
+            top.add(h.Mos(**req, **v)(d=top.a, g=top.b, s=top.c, b=top.d), name=f"m{k}")
+        try:
+            P["compile"](top)
+        except Exception as e:
+            return (f"{pname}.params.raises", f"{case!r}: {type(e).__name__}: {str(e)[:100]}", w)
+        calls = [top.instances[f"m{k}"].of for k in range(len(variants))]
+
+        def getp(c, names_):
+            prm = c.params
+            for n in names_:
+                val = prm.get(n) if isinstance(prm, dict) else getattr(prm, n, None)
+                if val is not None:
+                    return val
+            return None
+        for k, v in enumerate(variants):
+            got = getp(calls[k], ("mult", "m"))
+            if got is not None and got != v["mult"]:
+                return (f"{pname}.params.mult", f"{case!r}: instance m{k} asked for mult={v['mult']}, device call has {got}", w)
+            if "w" in v and getp(calls[k], ("w",)) != v["w"]:
+                return (f"{pname}.params.size", f"{case!r}: instance m{k} asked for w={v['w']}, device call has {getp(calls[k], ('w',))}", w)
+        if calls[1] is not calls[3]:
+            return (f"{pname}.cache-identity", f"{case!r}: equal primitive parameters gave different device calls", w)
+        if calls[0] is calls[1] or calls[4] is calls[5]:
+            return (f"{pname}.cache-conflates", f"{case!r}: different primitive parameters share one device call", w)
         return None
     if kind == "dispatch":
         import hdl21.pdk as hp
